@@ -2705,5 +2705,40 @@ Lemma handler_table_exact_derived chain s t :
   get_handler (build_handlers (effective chain)) s t = spec_table (effective chain) s t.
 Proof. apply handler_table_exact. Qed.
 
-Lemma refinement_derived p t ops : trace (impl_run (elab p t) ops) = trace (spec_run (elab p t) ops).
+Lemma refinement_derived depth p ls rt ops :
+  trace (impl_run (elabc depth p ls rt) ops) = trace (spec_run (elabc depth p ls rt) ops).
 Proof. apply refinement. Qed.
+
+(** ** [add] / [remove] only affect the class they are called on and the classes derived from it *)
+Lemma aget_aset_other {V} (d : list (N * V)) k v k' : k <> k' -> aget N.eqb (aset N.eqb d k v) k' = aget N.eqb d k'.
+Proof. intro H. rewrite (aget_aset N.eqb N.eqb_eq). destruct (N.eqb k k') eqn:E; [apply N.eqb_eq in E; contradiction|reflexivity]. Qed.
+
+Lemma layers_of_aset_other fuel p : forall ls c d c',
+  ~ In c (mro_ids fuel p c') -> layers_of fuel p (aset N.eqb ls c d) c' = layers_of fuel p ls c'.
+Proof.
+  induction fuel as [|f IH]; intros ls c d c' H; [reflexivity|].
+  cbn [layers_of mro_ids] in *.
+  assert (Hne : c <> c').
+  { intro E. apply H. subst c'. destruct (aget N.eqb p c) as [[a x o b]|]; left; reflexivity. }
+  rewrite (aget_aset_other ls c d c' Hne).
+  destruct (aget N.eqb ls c'); [reflexivity|].
+  destruct (aget N.eqb p c') as [[a x o [b|]]|]; try reflexivity.
+  apply IH. intro Hin. apply H. right. exact Hin.
+Qed.
+
+Lemma setup_step_local p ls st c' :
+  ~ In (match st with SAdd c _ => c | SRemove c _ => c end) (mro_ids (S (length p)) p c') ->
+  layers_of (S (length p)) p (setup_step p ls st) c' = layers_of (S (length p)) p ls c'.
+Proof.
+  intro H. destruct st as [c sub|c sub]; unfold setup_step.
+  - apply layers_of_aset_other. exact H.
+  - destruct (layers_of (S (length p)) p ls c) as [d|]; [|reflexivity].
+    destruct (aget N.eqb d (alias_of p sub)); [|reflexivity]. apply layers_of_aset_other. exact H.
+Qed.
+
+(** ... and on the class itself they do what a dictionary assignment / deletion does, starting
+    from the inherited dictionary *)
+Lemma setup_add_self p ls c sub :
+  layers_of (S (length p)) p (setup_step p ls (SAdd c sub)) c
+  = Some (aset N.eqb (match layers_of (S (length p)) p ls c with Some d => d | None => [] end) (alias_of p sub) sub).
+Proof. unfold setup_step. cbn [layers_of]. rewrite (aget_aset N.eqb N.eqb_eq), N.eqb_refl. reflexivity. Qed.
